@@ -207,9 +207,12 @@ def drive(args):
         e, b = isoc.do_dumps(m, codec, bc, hexb)
         if b is None:
             continue
-        add('valid message', b, repr(m)[:300])
+        if (lo + i) % 2 == 0:
+            add('valid message', b, repr(m)[:300])
         for desc, x in mutants_of(b, bc, codec, hexb, r, tier):
             add(desc, x, repr(m)[:300])
+        if (lo + i) % 2:
+            add('valid message (decoded after its mutants)', b, repr(m)[:300])
     if lo == 0:
         # ICC (binary TLV) elements whose content ends inside a tag or inside a length
         iccbits = [b_ for b_ in bc if b_ != '1' and bc[b_].get('field_processor') == 'ICC']
